@@ -397,8 +397,8 @@ func (h *vfE2Pump) episode() {
 	for i := 0; i < steps && h.fails < 5 && !h.dead; i++ {
 		h.nOps++
 		pending := h.pubs - int(atomic.LoadUint64(&h.cl.MessageCount))
-		switch k := h.r.Intn(10); {
-		case k < 3: // publish one message
+		switch k := h.r.Intn(12); {
+		case k < 3 || k >= 10: // publish one message
 			take := h.expectTaken(pending + 1)
 			want := int(atomic.LoadUint64(&h.cl.MessageCount)) + take
 			h.pub()
@@ -408,8 +408,8 @@ func (h *vfE2Pump) episode() {
 			}
 			h.hist["pump:op:pub"]++
 		case k < 6: // RDY n
-			nr := h.r.Intn(4)
-			if h.r.Intn(3) == 0 {
+			nr := 1 + h.r.Intn(8)
+			if h.r.Intn(4) == 0 {
 				nr = 0
 			}
 			h.rdy = nr
@@ -474,7 +474,7 @@ func (h *vfE2Pump) episode() {
 		}
 		// oracle pump-newer: not ready (by the harness's books) and parked ⇒ a publish now is neither
 		// taken off the queue nor sent
-		if !h.ready() && h.r.Intn(2) == 0 {
+		if !h.ready() && h.r.Intn(5) == 0 {
 			mc, g := atomic.LoadUint64(&h.cl.MessageCount), h.ngot()
 			h.log.mu.Lock()
 			w0 := h.log.wrote
